@@ -593,7 +593,7 @@ class Mailbox:
         # that even if we are getting a non-stop stream of non-conflicting
         # commands we check the mailbox for updates.
         #
-        duration = time.monotonic() - self.last_resync
+        duration = time.time() - self.last_resync
         if duration >= 10:
             self.logger.debug(
                 "mbox: '%s', IMAP Command %s: more than 10s since last resync, blocking",
